@@ -14,6 +14,10 @@ INCLUDES = ["-I" + os.path.join(VERIF, "contracts"), "-I" + os.path.join(REPO, "
             "-I" + os.path.join(VERIF, "harness"), "-I" + REPO]
 
 
+import threading
+CBMC_SLOTS = threading.BoundedSemaphore(int(os.environ.get("VERIF_JOBS", "16")))   # at most this many solver processes at a time
+
+
 class Undecided(Exception):
     pass
 
@@ -97,6 +101,12 @@ def classify(ob, h):
             or "decreases clause" in desc or "loop_step" in name:
         return "loop", list(h["props"]), name
     if "unwind" in name or "recursion" in name:
+        # a loop whose unwinding bound IS the property's bound (e.g. "never more frames than a maximum-size Emit"):
+        # exceeding it is a violation of that property, not a model limit
+        for key, props in h.get("unwind_props", {}).items():
+            fn_, idx_ = key.rsplit(".", 1)
+            if ob.get("function") == fn_ and name.endswith(".unwind." + idx_):
+                return "spec", list(props), "%s.loop-bound(%s)" % (props[0], key)
         return "unwind", [], name
     if "no_body" in name or "undefined function" in desc or "no body" in desc:
         return "closure", ["C20"] + list(h["props"]), name
@@ -213,7 +223,8 @@ def build_and_run(h, tier, workroot, keep=False):
             cmd = list(cb)
             for n in lst:
                 cmd += ["--property", n]
-            return sh(cmd, cwd=wd, timeout=tmo, mem_gb=h.get("mem_gb", 24))
+            with CBMC_SLOTS:
+                return sh(cmd, cwd=wd, timeout=tmo, mem_gb=h.get("mem_gb", 24))
         while True:
             with ThreadPoolExecutor(max_workers=nshards) as ex:
                 shard_res = list(ex.map(run_shard, [s for s in shards if s]))
@@ -229,11 +240,13 @@ def build_and_run(h, tier, workroot, keep=False):
                 return res
             outs.append((rc, out, err))
     else:
-        rc, out, err, w = sh(cb, cwd=wd, timeout=tmo, mem_gb=h.get("mem_gb", 24))
+        with CBMC_SLOTS:
+            rc, out, err, w = sh(cb, cwd=wd, timeout=tmo, mem_gb=h.get("mem_gb", 24))
         # DFCC keeps sets indexed by object id (2^object-bits entries): use the smallest width that fits
         while "too many addressed objects" in (out + err) and int(cb[ob_idx + 1]) < 14:
             cb[ob_idx + 1] = str(int(cb[ob_idx + 1]) + 2)
-            rc, out, err, w = sh(cb, cwd=wd, timeout=tmo, mem_gb=h.get("mem_gb", 24))
+            with CBMC_SLOTS:
+                rc, out, err, w = sh(cb, cwd=wd, timeout=tmo, mem_gb=h.get("mem_gb", 24))
         res["cmds"].append(" ".join(cb))
         if rc == -9:
             res["undecided"] = "cbmc timeout after %ds" % tmo
@@ -432,7 +445,8 @@ def run_property(pid, tier, only=None, keep=False, jobs=16, record=False):
     t0 = time.time()
     seed = int(os.environ.get("VERIF_SEED", "0") or 0)
     pdef = table.PROPS[pid]
-    hs = [table.HARNESS[n] for n in pdef["harnesses"] if (tier == "thorough" or not table.HARNESS[n].get("thorough_only"))]
+    names = pdef.get("harnesses_" + tier, pdef["harnesses"])
+    hs = [table.HARNESS[n] for n in names if (tier == "thorough" or not table.HARNESS[n].get("thorough_only"))]
     if only:
         hs = [h for h in hs if h["name"] in only]
     workroot = os.path.join(VERIF, ".work", "%s-%d" % (pid, os.getpid()))
